@@ -58,16 +58,16 @@ class C16(Check):
             'set of truncation points); fault model = the compressed stream ends at byte t, for EVERY t < len when the '
             'compressed stream is <= 512 B (quick) / 2 KiB (thorough), 40 sampled t otherwise, each fed whole and cut in two; '
             're-chunkings: the compressor\'s own chunks, one blob, fixed 1/7/4096-byte chunks, random cuts, empty chunks inserted '
-            'before/between/after; sizes 0 .. 3 internal buffers (128 KiB) quick, 1 MiB thorough. '
+            'before/between/after; sizes 0 .. 3 internal buffers (128 KiB) quick, 1 MiB thorough, plus 2-6 MiB of highly compressible data (a small compressed chunk expanding to several MiB). '
             'non-trivial = some re-chunking with >= 2 non-empty chunks; distinct = hash of the case')
     ASSUMPTIONS = ['zlib / zstandard C libraries are trusted as codecs; the property is about rxsci\'s streaming wrappers',
                    'reference decoders: gzip.decompress and zstandard.ZstdDecompressor.stream_reader']
     ANCHORS = ['rxsci/compression/z.py', 'rxsci/compression/zstd.py']
-    REQUIRED_TAGS = ['gzip', 'zstd', 'empty-list', 'empty-chunk-in-input', 'over-one-buffer', 'rand', 'zeros']
+    REQUIRED_TAGS = ['gzip', 'zstd', 'empty-list', 'empty-chunk-in-input', 'over-one-buffer', 'rand', 'zeros', 'multi-MiB-compressible']
     REQUIRED_OBSERVED = ['truncations_checked', 'rechunkings_checked', 'reference_decodes']
 
     def generate(self, rng, tier, shard, nshards):
-        n = 700 if tier == 'quick' else 3000
+        n = 420 if tier == 'quick' else 3000
         big = 3 * 131072 + 17 if tier == 'quick' else 1 << 20
         for k in range(n):
             codec = ('gzip', 'zstd')[k % 2]
@@ -93,6 +93,12 @@ class C16(Check):
             kind = rng.choice(['rand', 'zeros', 'text', 'mixed'])
             if k < 8:
                 kind = ('rand', 'zeros')[(k // 2) % 2]
+            if k % 12 == 11:
+                # several MiB of highly compressible data: one compressed chunk expands to far more than any
+                # internal buffer (decompressors that bound their output per call must still drain everything)
+                sizes = [rng.choice([1 << 20, (1 << 20) + 13, 3 << 19]) for _ in range(rng.randint(2, 4))]
+                kind = ('zeros', 'text')[(k // 24) % 2]
+                codec = ('gzip', 'zstd')[(k // 12) % 2]
             rech = [{'mode': 'natural'}, {'mode': 'blob'}, {'mode': 'blob', 'empties': True},
                     {'mode': 'fixed', 'size': 1 if sum(sizes) < 5000 else 997},
                     {'mode': 'fixed', 'size': 7 if sum(sizes) < 20000 else 4096, 'empties': True},
@@ -133,6 +139,8 @@ class C16(Check):
             out.tags.append('empty-chunk-in-input')
         if len(data) > 131072:
             out.tags.append('over-one-buffer')
+        if len(data) > (2 << 20) and case['data']['kind'] in ('zeros', 'text'):
+            out.tags.append('multi-MiB-compressible')
 
         c = subscribe(rx.from_(chunks).pipe(comp_op()), Snap())
         if c.err is not None or not c.done:
